@@ -222,6 +222,105 @@ pub fn gen_giant_inbound(r: &mut Rng, seq: u8) -> Plan {
     p
 }
 
+/// payloads between the small classes and 2^24: 70 KB .. 6 MB, with neighbours in the same read
+fn gen_medium_inbound(r: &mut Rng) -> Plan {
+    let mut cmds = Vec::new();
+    let n = 2 + r.usize_below(4);
+    let big_at = r.usize_below(n);
+    let mut have_stmt = false;
+    for i in 0..n {
+        let len = if i == big_at {
+            match r.below(4) {
+                0 => r.range(70_000, 300_000) as u32,
+                1 => r.range(1_048_000, 1_049_600) as u32,
+                2 => r.range(300_000, 3_000_000) as u32,
+                _ => r.range(3_000_000, 6_000_000) as u32,
+            }
+        } else {
+            1 + size_small(r).min(3000) as u32
+        };
+        match r.below(3) {
+            0 | 1 => cmds.push(Cmd {
+                seq: 0,
+                kind: CmdKind::Query(Blob::Gen {
+                    len,
+                    salt: r.next() as u32,
+                    ascii: true,
+                }),
+                act: Act::Program(simple_ok_program()),
+            }),
+            _ => {
+                if !have_stmt {
+                    have_stmt = true;
+                    cmds.push(Cmd {
+                        seq: 0,
+                        kind: CmdKind::Prepare(Blob::lit(b"p")),
+                        act: Act::Prepare(PrepAct::Reply {
+                            id: 3,
+                            params: vec![ColSpec {
+                                table: Blob::lit(b""),
+                                name: Blob::lit(b"p"),
+                                coltype: 0xfc,
+                                flags: 0,
+                            }],
+                            cols: vec![],
+                        }),
+                    });
+                }
+                // reply-less command followed immediately by the next one
+                cmds.push(Cmd {
+                    seq: 0,
+                    kind: CmdKind::LongData {
+                        stmt: 3,
+                        param: 0,
+                        data: Blob::Gen {
+                            len,
+                            salt: r.next() as u32,
+                            ascii: false,
+                        },
+                    },
+                    act: Act::None,
+                });
+                cmds.push(Cmd {
+                    seq: 0,
+                    kind: CmdKind::Execute {
+                        stmt: 3,
+                        flags: 0,
+                        iters: 1,
+                        block: ParamBlock {
+                            bind: Some(vec![(0xfc, 0)]),
+                            values: vec![PVal::Skip],
+                            raw: None,
+                            stale_types: None,
+                        },
+                    },
+                    act: Act::Program(simple_ok_program()),
+                });
+            }
+        }
+    }
+    let mut p = Plan::basic(cmds);
+    p.arrival = Arrival::upfront();
+    p.reads = ReadSched {
+        explicit: vec![],
+        cuts: vec![],
+        tail: match r.below(4) {
+            0 => Tail::All,
+            1 => Tail::Fixed(65_536),
+            2 => Tail::Hash {
+                seed: r.next(),
+                max: 400_000,
+            },
+            _ => Tail::Fixed(4096 * (1 + r.below(64) as u32)),
+        },
+    };
+    if r.coin() {
+        let (h, _) = header_offsets(&p);
+        add_header_cuts(r, &mut p.reads, &h, 70);
+    }
+    p
+}
+
 pub const GIANTS_Q: u64 = 16;
 pub const GIANTS_T: u64 = 1200;
 
@@ -229,6 +328,10 @@ fn gen_c01(r: &mut Rng, t: Tier, job: u64) -> Plan {
     let giants = if t == Tier::Quick { GIANTS_Q } else { GIANTS_T };
     if job < giants {
         return gen_giant_inbound(r, 0);
+    }
+    let mediums = if t == Tier::Quick { 400 } else { 20_000 };
+    if job < giants + mediums {
+        return gen_medium_inbound(r);
     }
     let n = 1 + r.usize_below(12);
     let mut cmds = Vec::new();
@@ -484,7 +587,7 @@ fn add_contradiction(r: &mut Rng, p: &mut Program, binary: bool) -> bool {
                 // the other rows must not hold NULL there
                 let c = ru.cols[col].clone();
                 for rw in ru.rows.iter_mut() {
-                    if matches!(rw[col], Cell::Null(_) | Cell::Myc(MycV::Null)) {
+                    if is_null_cell(&rw[col]) {
                         rw[col] = gen_cell_for_col(r, c.coltype, c.flags, false);
                     }
                 }
